@@ -9,6 +9,7 @@ import concurrent.futures as cf
 import hashlib
 import os
 import re
+import shutil
 import subprocess
 import sys
 
@@ -27,6 +28,22 @@ MAX_LEAVES = 48  # per unit: beyond this many individually failing rows the rest
 
 def _gen_dir():
     return os.path.join(vlib.BUILD, PID, 'gen-' + vlib.repo_hash())
+
+
+def _prune_scratch():
+    """Bounds the generator's scratch space: old gen-<hash> directories (one per tree content) and old probe markers."""
+    base = os.path.join(vlib.BUILD, PID)
+    try:
+        gens = sorted((os.path.join(base, e) for e in os.listdir(base) if e.startswith('gen-')), key=os.path.getmtime, reverse=True)
+        for g in gens[6:]:
+            if g != _gen_dir():
+                shutil.rmtree(g, ignore_errors=True)
+        pd = os.path.join(base, 'probe')
+        marks = sorted((os.path.join(pd, e) for e in os.listdir(pd)), key=os.path.getmtime, reverse=True) if os.path.isdir(pd) else []
+        for m in marks[3000:]:
+            os.unlink(m)
+    except OSError:
+        pass
 
 
 def _dep_stamp(files):
@@ -66,7 +83,8 @@ def probe_full(text, flags, cmd):
         return t.startswith('ok'), t[3:]
     p = subprocess.run(full, input=text, stdout=subprocess.PIPE, stderr=subprocess.STDOUT, text=True, errors='replace')
     ok = p.returncode == 0
-    out = '' if ok else p.stdout.replace(vlib.REPO, '<repo>')
+    # keep what diagnose() reads: the error lines and every line that names a row of the probe text
+    out = '' if ok else '\n'.join(l[:400] for l in p.stdout.replace(vlib.REPO, '<repo>').splitlines() if 'error' in l or '<stdin>:' in l)
     with open(marker, 'w') as f:
         f.write(('ok \n' if ok else 'no ' + out))
     return ok, out
@@ -86,14 +104,27 @@ def diagnose(prelude, rows, flags, cmd, rounds=10):
             return bad
         found = 0
         err = None
+        waiting = []  # g++ names the rows ("required from here") before the error line, clang after it
+        clang = 'clang' in cmd[0]
         for line in out.splitlines():
-            if ' error: ' in line or ' error ' in line[:40]:
+            is_err = ' error: ' in line or ' error ' in line[:40]
+            if is_err:
                 err = line.strip()[:300]
+                for i in waiting:
+                    if i not in bad:
+                        bad[i] = err
+                        found += 1
+                waiting = []
             for m in re.finditer(r'<stdin>:(\d+):', line):
                 i = int(m.group(1)) - base - 1
-                if 0 <= i < len(rows) and i not in bad and err is not None:
-                    bad[i] = err
-                    found += 1
+                if not (0 <= i < len(rows)) or i in bad:
+                    continue
+                if clang or is_err:
+                    if err is not None:
+                        bad[i] = err
+                        found += 1
+                else:
+                    waiting.append(i)
         if not found:
             return None
     return None
@@ -225,6 +256,7 @@ def make_stage(pool, name, family, plan_name, cmd, flags, prelude, thorough_only
         # vlib runs the prebuild hooks one after the other; the first one starts the generators (and their syntax-only
         # pre-passes) of every stage of this run concurrently, each hook then only waits for its own shards
         if not pool['futures']:
+            _prune_scratch()
             only = sys.argv[sys.argv.index('--stage') + 1] if '--stage' in sys.argv[:-1] else None
             todo = [s for s in pool['stages'] if (tier == 'thorough' or not s.thorough_only) and (only is None or s.name == only)]
             if '--replay' in sys.argv or stage not in todo:
